@@ -256,7 +256,51 @@ func genC02Value(t *rapid.T) m.Packet {
 // 16-bit length field can describe (65536 words).
 func c02MaxSizeValues() []m.Packet {
 	unknown := m.XRBlock{BT: 99, TypeSpecific: 1, Body: make([]byte, 262144-8-4)}
+	// CCFB: 12 + sum(8 + 2n) octets; 7 x 16384 + 16346 metric blocks = 262144 octets
+	ccfb := &m.CCFB{Sender: 1, Timestamp: 2}
+	for b := 0; b < 8; b++ {
+		n := 16384
+		if b == 7 {
+			n = 16346
+		}
+		ms := make([]m.CCFBMetric, n)
+		for i := range ms {
+			ms[i] = m.CCFBMetric{Received: true, ECN: uint8(i % 4), ATO: uint16(i % 0x2000)}
+		}
+		ccfb.Blocks = append(ccfb.Blocks, m.CCFBBlock{SSRC: uint32(b + 1), BeginSeq: 0, Metrics: ms})
+	}
+	// SDES: one chunk of 1019 items of 255 octets and one of 250 = 262144 octets
+	chunk := m.SDESChunk{Source: 7}
+	for i := 0; i < 1020; i++ {
+		n := 255
+		if i == 1019 {
+			n = 250
+		}
+		txt := make([]byte, n)
+		for j := range txt {
+			txt[j] = byte('a' + (i+j)%26)
+		}
+		typ := uint8(2)
+		if i == 0 {
+			typ = 1
+		}
+		chunk.Items = append(chunk.Items, m.SDESItem{Type: typ, Text: txt})
+	}
+	// FIR: 12 + 8n octets, n = 32766 is the largest that fits (262140 octets)
+	fir := &m.FIR{Sender: 1, Media: 2, Entries: make([]m.FIREntry, 32766)}
+	for i := range fir.Entries {
+		fir.Entries[i] = m.FIREntry{SSRC: uint32(i), Seq: uint8(i)}
+	}
+	// TWCC: 20 + 2n octets of chunks; zero-length runs cover no status, the last chunk the only one
+	tw := &m.TWCC{Sender: 1, Media: 2, StatusCount: 1, Chunks: make([]m.TWCCChunk, 131062)}
+	tw.Chunks[131061] = m.TWCCChunk{Symbol: 0, Run: 1}
+	gen.FixTWCCHeader(tw, false)
 	return []m.Packet{
+		{Kind: m.KCCFB, CCFB: ccfb},
+		{Kind: m.KSDES, SDES: &m.SDES{Chunks: []m.SDESChunk{chunk}}},
+		{Kind: m.KFIR, FIR: fir},
+		{Kind: m.KTWCC, TWCC: tw},
+		{Kind: m.KAPP, APP: &m.APP{Subtype: 3, SSRC: 9, Name: []byte("abcd"), Data: make([]byte, 65523)}},
 		{Kind: m.KSR, SR: &m.SR{SSRC: 1, Ext: make([]byte, 262144-28)}},
 		{Kind: m.KRR, RR: &m.RR{SSRC: 1, Ext: make([]byte, 262144-8)}},
 		{Kind: m.KXR, XR: &m.XR{Sender: 1, Blocks: []m.XRBlock{unknown}}},
